@@ -416,6 +416,15 @@ impl TokenStream<'_> {
 
     /// Advances the token stream by the provided offset.
     /// The other values do not change.
+    /// Number of consecutive comment tokens behind the first `offset` tokens of this stream.
+    pub fn comments_at(&self, offset: usize) -> usize {
+        self.tokens
+            .iter()
+            .skip(offset)
+            .take_while(|token| matches!(token.token_type, TokenType::Comment(_)))
+            .count()
+    }
+
     pub fn advance(self, offset: usize) -> Self {
         Self {
             tokens: &self.tokens[offset..],
